@@ -17,8 +17,8 @@ from . import c05 as zoo
 from . import common
 
 PROP = "C08"
-LEAN_MODULES = ["MiciVerif.Props.C08", "MiciVerif.Props.C08S"]
-GENERATED = ["system_methods"]
+LEAN_MODULES = ["MiciVerif.Props.C08", "MiciVerif.Props.C08S", "MiciVerif.Props.C08K"]  # C08K: builder B10
+GENERATED = ["system_methods", "transition_skeleton"]
 LEAN_EXTRA = ["MiciVerif.Model.Momentum", "MiciVerif.Model.Constrained", "MiciVerif.Proto"]
 
 COEFFS = [0.0, 1.0, 0.25, 0.5, 0.6, 0.875, 0.999]
@@ -155,6 +155,194 @@ def oracle_case(sp, q, z, mom, coeff):
     return bad, obs
 
 
+# --- B10: momentum-transition oracle (finite-sample form of C08K.msem_correlated_invariant) -------------------------
+class SeqGen:
+    """Generator whose k-th normal draw is `zs[k]` (the last one repeated); counts the draws."""
+
+    def __init__(self, zs):
+        self.zs = [np.array(z, dtype=float) for z in zs]
+        self.draws = 0
+
+    def _draw(self, size):
+        z = self.zs[min(self.draws, len(self.zs) - 1)]
+        self.draws += 1
+        n = size if isinstance(size, int) else (size[0] if size else len(z))
+        if n != len(z):
+            raise ValueError(f"draw of size {size} requested, script has {len(z)}")
+        return z.copy()
+
+    def standard_normal(self, size=None, **_):
+        return self._draw(size)
+
+    def normal(self, loc=0.0, scale=1.0, size=None):  # noqa: ARG002
+        return self._draw(size)
+
+
+def k_escalated(ctx) -> bool:
+    """An obligation of Props/C08K (source tie of the momentum transitions: skel_* / msem_*) is broken, i.e. the
+    bodies of IndependentMomentumTransition.sample / CorrelatedMomentumTransition.__init__ / .sample regenerated from
+    the tree under test are no longer the ones the model was proved about."""
+    broken = [o["theorem"] for o in ctx.obligations if not o["ok"] and ".C08K." in "." + o["theorem"] + "."]
+    if broken:
+        ctx.extra["c08k_obligations_broken"] = broken[:20]
+    return bool(broken)
+
+
+def cn_oracle(sp, q, mom, coeff, z1, z2):
+    """The property statement for the two momentum transitions on the real system `sp` at position `q`:
+    (a) branch behaviour with a generator whose first two draws DIFFER (z1, z2): full refresh = sample_momentum(z1)
+    after exactly one draw when mom is None or c == 1; unchanged and no draw when c == 0; otherwise exactly one
+    draw and a * mom + c * sample_momentum(z1) with a >= 0, a^2 + c^2 = 1;
+    (b) invariance of the law at the level of second moments, exactly as C08K.msem_correlated_invariant states it:
+    current momenta +-sqrt(n) L e_i (mean 0, second moment L L^T) x draws +-sqrt(n) e_j (mean 0, second moment 1),
+    all (2n)^2 pairs pushed through the real `sample`: the outputs must have second moment L L^T (and mean 0).
+    Returns a list of (signature, text)."""
+    import mici
+
+    system, _ = zoo.build_system(sp)
+    n = sp["n"]
+    bad = []
+    L = recover_L(system, q, n)
+    cov = L @ L.T
+    sc = 1.0 + float(np.max(np.abs(cov)))
+    z1 = np.array(z1, dtype=float)
+    z2 = np.array(z2, dtype=float)
+    p1 = L @ z1
+    tr = mici.transitions.CorrelatedMomentumTransition(system, mom_resample_coeff=coeff)
+    ind = mici.transitions.IndependentMomentumTransition(system)
+    m0 = None if mom is None else np.array(mom, dtype=float)
+    tol = 1e-11 * (1 + float(np.max(np.abs(p1))) + (0.0 if m0 is None else float(np.max(np.abs(m0)))))
+    # (a) ---------------------------------------------------------------------------------------------
+    g = SeqGen([z1, z2])
+    st, stats = ind.sample(new_state(q, m0), g)
+    if g.draws != 1 or st.mom is None or float(np.max(np.abs(np.array(st.mom, dtype=float) - p1))) > tol or stats is not None:
+        bad.append(("IndependentMomentumTransition.sample", f"independent refresh is not sample_momentum of exactly one draw ({g.draws} draws)"))
+    g = SeqGen([z1, z2])
+    st, stats = tr.sample(new_state(q, m0), g)
+    new = None if st.mom is None else np.array(st.mom, dtype=float)
+    if new is None or new.shape != p1.shape or not np.all(np.isfinite(new)):
+        bad.append((f"CorrelatedMomentumTransition.sample momentum-missing c={coeff}",
+                    f"coefficient {coeff}, mom {'None' if m0 is None else 'given'}: returned momentum {new!r}"))
+        return bad
+    if m0 is None or coeff == 1:
+        if g.draws != 1 or float(np.max(np.abs(new - p1))) > tol:
+            bad.append((f"CorrelatedMomentumTransition.sample full-refresh c={coeff} mom={'none' if m0 is None else 'mom'}",
+                        f"coefficient {coeff}, mom {'None' if m0 is None else 'given'}: expected sample_momentum of the first draw after one draw, "
+                        f"got {new.tolist()} (want {p1.tolist()}) after {g.draws} draws"))
+    elif coeff == 0:
+        if g.draws != 0 or not np.array_equal(new, m0):
+            bad.append(("CorrelatedMomentumTransition.sample c=0",
+                        f"coefficient 0: momentum changed to {new.tolist()} / {g.draws} draws consumed"))
+    else:
+        if g.draws != 1:
+            bad.append(("CorrelatedMomentumTransition.sample partial-refresh draws",
+                        f"coefficient {coeff}: partial refresh consumed {g.draws} normal draws instead of exactly one"))
+        a = (1.0 - coeff * coeff) ** 0.5
+        want = a * m0 + coeff * p1
+        if float(np.max(np.abs(new - want))) > 1e-11 * (1 + float(np.max(np.abs(want)))):
+            bad.append(("CorrelatedMomentumTransition.sample combination",
+                        f"coefficient {coeff}: update is not sqrt(1-c^2)*mom + c*sample_momentum(first draw): {new.tolist()} vs {want.tolist()}"))
+    # (b) ---------------------------------------------------------------------------------------------
+    rn = float(np.sqrt(n))
+    moms = [s * rn * L[:, i] for i in range(n) for s in (1.0, -1.0)]
+    zs = [s * rn * np.eye(n)[j] for j in range(n) for s in (1.0, -1.0)]
+    for name, t in (("CorrelatedMomentumTransition", tr), ("IndependentMomentumTransition", ind)):
+        acc = np.zeros((n, n))
+        mean = np.zeros(n)
+        draws = set()
+        for pm in moms:
+            for z in zs:
+                g = SeqGen([z, -z])
+                st, _ = t.sample(new_state(q, pm), g)
+                o = np.array(st.mom, dtype=float)
+                acc += np.outer(o, o)
+                mean += o
+                draws.add(g.draws)
+        acc /= len(moms) * len(zs)
+        mean /= len(moms) * len(zs)
+        err = float(np.max(np.abs(acc - cov)))
+        if not err <= 1e-9 * sc or not float(np.max(np.abs(mean))) <= 1e-9 * sc:
+            bad.append((f"{name}.sample second-moment invariance c={coeff}" if name[0] == "C" else f"{name}.sample second-moment invariance",
+                        f"{name}.sample (coefficient {coeff}) maps independent zero-mean samples of momentum (second moment L L^T) and "
+                        f"normal draw (second moment 1) to outputs with second moment differing from L L^T by {err:.3e} "
+                        f"(mean {float(np.max(np.abs(mean))):.3e}): the Gaussian momentum law is not invariant"))
+        if len(draws) != 1:
+            bad.append((f"{name}.sample draws depend on momentum", f"number of draws consumed varies over the sample: {sorted(draws)}"))
+    return bad
+
+
+def cn_ctor_oracle(sp):
+    """Coefficients outside [0, 1] (and NaN) must be rejected by the constructor, the end points and interior accepted."""
+    import mici
+
+    system, _ = zoo.build_system(sp)
+    bad = []
+    for c in (-0.125, 1.125, 2.0, -1.0, float("nan")):
+        try:
+            mici.transitions.CorrelatedMomentumTransition(system, mom_resample_coeff=c)
+        except ValueError:
+            continue
+        except Exception as e:  # noqa: BLE001
+            bad.append((f"CorrelatedMomentumTransition.__init__ foreign exception {type(e).__name__}", f"coefficient {c}: {type(e).__name__}: {e}"))
+            continue
+        bad.append(("CorrelatedMomentumTransition.__init__ range check", f"coefficient {c} outside [0, 1] accepted: (1 - c^2)^0.5 is not a real number / "
+                    "the update does not preserve the momentum law"))
+    for c in (0.0, 1.0, 0.5, 1, 0):
+        try:
+            t = mici.transitions.CorrelatedMomentumTransition(system, mom_resample_coeff=c)
+            if t.mom_resample_coeff != c:
+                bad.append(("CorrelatedMomentumTransition.__init__ stored coefficient", f"coefficient {c} stored as {t.mom_resample_coeff!r}"))
+        except Exception as e:  # noqa: BLE001
+            bad.append(("CorrelatedMomentumTransition.__init__ rejects valid coefficient", f"coefficient {c} in [0, 1] rejected: {type(e).__name__}: {e}"))
+    return bad
+
+
+def cn_section(ctx, rng):
+    """Momentum-transition oracle on a few systems per run; widened (all coefficients x mom / None x more systems,
+    random interior coefficients) when an obligation of Props/C08K is broken."""
+    esc = k_escalated(ctx)
+    if esc:
+        ctx.count("search_escalated:momentum_transitions")
+    fams = [("euclid", "identity"), ("euclid", "dense"), ("gauss", "diag"), ("constr-haus", "dense"), ("riem-dense", None)]
+    fams = [(f, k) for f, k in fams if f in zoo.FAMILIES and (k is None or k in zoo.EUCLID_METRICS)]
+    if not fams:
+        fams = [(zoo.FAMILIES[0], zoo.EUCLID_METRICS[0])]
+    reps = ctx.n(2, 12) * (3 if esc else 1)
+    for fam, mk in fams:
+        for r in range(reps):
+            try:
+                base = gen_case(rng, fam, mk)
+            except Exception as e:  # noqa: BLE001
+                raise common.MachineryError(f"generator failed for {fam}/{mk}: {e}") from e
+            sp = base["spec"]
+            n = sp["n"]
+            z2 = zoo.dyvec(rng, n, -2, 2, 8)
+            if list(z2) == list(base["z"]):
+                z2 = [x + 1.0 for x in z2]
+            coeffs = list(COEFFS) + [float(rng.integers(1, 64)) / 64 for _ in range(4)] if esc else [float(rng.choice(COEFFS)), float(rng.integers(1, 64)) / 64]
+            if r == 0:
+                try:
+                    for sig, text in cn_ctor_oracle(sp):
+                        ctx.violation(sig, f"{text}; family={fam}", {"cn_ctor": {"spec": sp}})
+                except Exception as e:  # noqa: BLE001
+                    ctx.violation(f"momentum transition constructor foreign exception {type(e).__name__}", f"{type(e).__name__}: {e}", {"cn_ctor": {"spec": sp}})
+            for coeff in coeffs:
+                for m0 in (base["mom"], None):
+                    case = {"spec": sp, "q": base["q"], "mom": m0, "coeff": coeff, "z1": base["z"], "z2": z2}
+                    ctx.case({"momentum_transition": fam, "metric": mk, "coeff": coeff, "mom": m0 is not None, "n": n}, nontrivial=True)
+                    ctx.count(f"cn:{fam}:{'mom' if m0 is not None else 'none'}")
+                    try:
+                        bad = cn_oracle(sp, case["q"], m0, coeff, case["z1"], z2)
+                    except Exception as e:  # noqa: BLE001
+                        ctx.violation(f"momentum transition foreign exception {type(e).__name__} c={coeff} mom={'none' if m0 is None else 'mom'}",
+                                      f"family={fam} metric={mk} coefficient {coeff} mom {'None' if m0 is None else 'given'}: {type(e).__name__}: {e}",
+                                      {"cn_case": case})
+                        continue
+                    for sig, text in bad:
+                        ctx.violation(sig, f"{text}; family={fam} metric={mk}", {"cn_case": case})
+# --- end B10 --------------------------------------------------------------------------------------------------------
+
+
 def gen_case(rng, fam, mk):
     sp = zoo.gen_spec(rng, fam, mk)
     q, p = zoo.gen_state(rng, sp)
@@ -273,6 +461,7 @@ def run(ctx: common.Ctx):
     rng = common.rng_for(ctx)
     replay_corpus(ctx)
     derived_metric_section(ctx, common.rng_for(ctx, 7))
+    cn_section(ctx, common.rng_for(ctx, 11))  # B10
     ctx.rule = (
         "all 10 system families of the C05 zoo; constant-metric families x 11 metric matrix types (identity, diagonal, "
         "dense, scaled identity, triangular-factored, eigendecomposed, block diagonal, low-rank update and downdate, "
@@ -357,6 +546,17 @@ def run(ctx: common.Ctx):
 
 
 def replay(ctx, obj):  # noqa: ARG001
+    if "cn_case" in obj:  # B10
+        c = obj["cn_case"]
+        try:
+            return bool(cn_oracle(c["spec"], c["q"], c["mom"], c["coeff"], c["z1"], c["z2"]))
+        except Exception:  # noqa: BLE001
+            return True
+    if "cn_ctor" in obj:  # B10
+        try:
+            return bool(cn_ctor_oracle(obj["cn_ctor"]["spec"]))
+        except Exception:  # noqa: BLE001
+            return True
     if "case" not in obj:  # derived / re-assigned metric families: re-run that section
         sub = common.Ctx(ctx.prop, ctx.tier, ctx.seed)
         derived_metric_section(sub, common.rng_for(sub, 7))
@@ -399,17 +599,32 @@ LEVEL_TEXT = (
     "self.m(state) calls resolved through the generated MRO - gives metric.sqrt @ z, metric(state).sqrt @ z, "
     "project J N G^-1 (sqrt @ z) resp. Constrained.project for every environment; src_*_sample_momentum_cotangent, "
     "src_*_project_cotangent, src_*_momentum_cov restate J M^-1 p = 0, idempotence of the projection and the (projected) "
-    "second moment for the source text."
+    "second moment for the source text. Momentum transitions (Props/C08K, builder B10): the statement trees of "
+    "IndependentMomentumTransition.sample, CorrelatedMomentumTransition.__init__ and .sample are re-translated on every run "
+    "(tools/extractors/transition_skeleton.py -> Generated/TransitionSkeleton.lean); skel_momentum_eq_model + 6 named "
+    "projections (branch conditions, one draw per branch, the Crank-Nicolson block, return value, range check); the "
+    "reading Skel.MSem (Model/MomentumSem.lean: conditions, scalar and vector expressions translated compositionally into a "
+    "typed language and executed in source order on (state.mom, mom_ind, draw counter)) of the generated bodies is "
+    "Momentum.independentSample / correlatedSample with a = sqrt(1 - c*c) for every commutative ring, index type, "
+    "coefficient, momentum or None, generator (msem_independent_is_model, msem_correlated_is_model); the constructor "
+    "accepts exactly 0 <= c <= 1 (msem_init_accepts_iff, msem_accepted_coeff_root_exists); branch_spec, crank_nicolson_cov, "
+    "crank_nicolson_invariant (every branch, every coefficient: msem_correlated_invariant; with sqrt @ sqrt.T = M: "
+    "msem_momentum_law_invariant), crank_nicolson_cotangent transported to the reading."
 )
 LEVEL_NOTE = (
     "Trusted: Lean kernel, axioms {propext, Classical.choice, Quot.sound}; the mathematical fact that a zero-mean "
     "Gaussian is determined by its covariance and that linear images of Gaussians are Gaussian (invariance is proved at "
     "the level of second moments of arbitrary finite weighted samples, not of densities); the harness. The square-root "
     "factor of each metric class and the float value of (1-c²)^½ are checked data: their defining equations are "
-    "validated numerically (1e-9 / 1e-13) on every run, the per-class sqrt algebra is C10's subject."
+    "validated numerically (1e-9 / 1e-13) on every run, the per-class sqrt algebra is C10's subject. In the reading of the "
+    "momentum transitions: system.sample_momentum(state, rng) is a function of the next normal draw, x ** 0.5 a function "
+    "sqrt with sqrt(x)^2 = x assumed at the one argument 1 - c^2, float literals 1.0 / 0.0 are 1 / 0, in-place *= / += "
+    "have value semantics (aliasing of state.mom with caller arrays is not modelled)."
 )
 TECHNIQUE = (
     "Lean 4 theorems (matrix identities, finite-sample second moments) + scripted-generator recovery of the "
     "implementation's linear map compared with the exact model + direct covariance / coefficient oracles + "
-    "source-to-term translation of the momentum / projection method bodies with machine-checked equality to the model"
+    "source-to-term translation of the momentum / projection method bodies with machine-checked equality to the model + "
+    "statement-tree translation of the momentum transitions with a compositional semantic reading proved equal to the model + "
+    "finite-sample second-moment invariance oracle on the real transitions ((2n)^2 product sample, distinct scripted draws)"
 )
